@@ -168,6 +168,8 @@ def main(argv=None):
         key = json.dumps(v.get("sig", {}), sort_keys=True)
         seen_sigs.setdefault(key, []).append(v)
     written = 0
+    for key in list(seen_sigs)[:80]:
+        print(f"  class {tally.sig_counts.get(key, 0):>7} x {key[:300]}")
     for key, vs in seen_sigs.items():
         for v in vs[:2]:
             if written >= MAX_REPLAYS_PER_RUN:
